@@ -26,6 +26,7 @@ type GNode struct {
 	A  [1]*GNode
 	M  map[string]*GNode
 	MI map[string]interface{}
+	MM map[string]map[string]*GNode
 	I  interface{}
 }
 
@@ -44,6 +45,7 @@ type gCase struct {
 	Nodes []map[string]gRef `json:"nodes"`
 	Maps  []map[string]gRef `json:"maps"`
 	IMaps []gRef            `json:"imaps"`
+	MMaps []map[string]gRef `json:"mmaps"`
 }
 
 func gBuild(c gCase) []*GNode {
@@ -58,6 +60,17 @@ func gBuild(c gCase) []*GNode {
 	imaps := make([]map[string]interface{}, len(c.IMaps))
 	for i := range imaps {
 		imaps[i] = map[string]interface{}{}
+	}
+	mmaps := make([]map[string]map[string]*GNode, len(c.MMaps))
+	for i, r := range c.MMaps {
+		mmaps[i] = map[string]map[string]*GNode{}
+		for _, k := range []string{"a", "b"} {
+			if r[k].T == "map" {
+				mmaps[i][k] = maps[r[k].V-1]
+			} else {
+				mmaps[i][k] = nil
+			}
+		}
 	}
 	node := func(r gRef) *GNode {
 		if r.T == "node" {
@@ -103,6 +116,9 @@ func gBuild(c gCase) []*GNode {
 		}
 		if r, ok := nv["mi"]; ok && r.T == "imap" {
 			n.MI = imaps[r.V-1]
+		}
+		if r, ok := nv["mm"]; ok && r.T == "mmap" {
+			n.MM = mmaps[r.V-1]
 		}
 		if r, ok := nv["i"]; ok {
 			n.I = any(r)
@@ -158,6 +174,25 @@ func gWalk(o, c *GNode, path string, seen map[*GNode]bool, out *[]gSite, diffs *
 	} else if o.MI != nil {
 		*out = append(*out, gSite{path + ".MI", reflect.ValueOf(o.MI).Pointer(), reflect.ValueOf(c.MI).Pointer()})
 		gIface(o.MI["i"], c.MI["i"], path+".MI[i]", seen, out, diffs)
+	}
+	if (o.MM == nil) != (c.MM == nil) || len(o.MM) != len(c.MM) {
+		*diffs = append(*diffs, path+".MM: shape differs")
+	} else if o.MM != nil {
+		*out = append(*out, gSite{path + ".MM", reflect.ValueOf(o.MM).Pointer(), reflect.ValueOf(c.MM).Pointer()})
+		for _, k := range []string{"a", "b"} {
+			om, cm := o.MM[k], c.MM[k]
+			p := fmt.Sprintf("%s.MM[%s]", path, k)
+			if (om == nil) != (cm == nil) {
+				*diffs = append(*diffs, p+": nil-ness differs")
+				continue
+			}
+			if om == nil {
+				continue
+			}
+			*out = append(*out, gSite{p, reflect.ValueOf(om).Pointer(), reflect.ValueOf(cm).Pointer()})
+			site(p+"[v]", om["v"], cm["v"])
+			site(p+"[w]", om["w"], cm["w"])
+		}
 	}
 	gIface(o.I, c.I, path+".I", seen, out, diffs)
 }
